@@ -10,6 +10,8 @@ for d in sorted(glob.glob(os.path.join(ROOT, "seeded", "*"))):
     m = json.load(open(os.path.join(d, "meta.json")))
     r = json.load(open(os.path.join(d, "result.json"))) if os.path.exists(os.path.join(d, "result.json")) else {}
     def cell(tier):
+        if m.get("neutralised"):
+            return "no longer breaks the property after %s (was caught before it)" % m["neutralised"]["by"]
         if tier not in r:
             return "not run"
         out = []
